@@ -1096,3 +1096,119 @@ def flag_brackets_closed(chk):
                    detail="%s stays True on an early exit: whatever the flag suspends stays suspended" % k, construct=ident, text="phase flag %s left set" % k,
                    path=cfg.fmt_path(w, f))
     chk.ob("BRACKET-0", "functions examined for phase flags left set (%d)" % n, True, "mpf:1", nontrivial=False)
+
+
+# ---------------------------------------------------------------------------------------------------------------- EVPRIO-0
+# Control-event handlers carry their relative priority in the @event_handler(n) decorator: the event manager orders the handlers of one event
+# by it (enable before the hit it enables, reset after ...).  An override that drops the decorator falls to priority 0 (subclasses do choose
+# other priorities on purpose - shot groups 2, mixin 10 - so only a missing declaration is flagged).
+_POS_EVPRIO = """
+class Base:
+    @event_handler(20)
+    def event_enable(self, **kwargs):
+        pass
+
+class Child(Base):
+    def event_enable(self, **kwargs):
+        pass
+"""
+
+
+def _handler_priority(fn_node):
+    for d in fn_node.decorator_list:
+        if isinstance(d, ast.Call) and (getattr(d.func, "id", None) == "event_handler" or getattr(d.func, "attr", None) == "event_handler"):
+            return ast.unparse(d.args[0]) if d.args else "?"
+    return None
+
+
+def overrides_keep_event_priority(chk):
+    pos = ast.parse(_POS_EVPRIO).body
+    if not (_handler_priority(pos[0].body[0]) == "20" and _handler_priority(pos[1].body[0]) is None):
+        chk.pending_errors.append("EVPRIO-0 detector does not match its positive example")
+    rels = sorted({i.split("::", 1)[0] for i in _anchor_idents(chk)})
+    n = 0
+    for rel in rels:
+        m = chk.repo.modules.get(rel)
+        if m is None:
+            continue
+        for c in m.classes.values():
+            for name, f in c.methods.items():
+                base = chk.repo.lookup_method(c, name, skip_self=True)
+                if base is None:
+                    continue
+                want = _handler_priority(base.node)
+                if want is None:
+                    continue
+                n += 1
+                got = _handler_priority(f.node)
+                chk.ob("EVPRIO-0", "an override of a prioritised control-event handler declares a relative priority of its own (@event_handler(n))", got is not None,
+                       f.where(), detail="%s declares @event_handler(%s); the override %s" % (base.ident, want, "declares none: it runs at priority 0, "
+                       "level with the handlers it used to precede" if got is None else "declares %s" % got), construct=f.ident,
+                       text="handler priority of %s" % f.qualname)
+    chk.ob("EVPRIO-0", "overrides of control-event handlers examined (%d)" % n, True, "mpf:1", nontrivial=False)
+
+
+# ---------------------------------------------------------------------------------------------------------------- STALE-0
+# A loop that waits (await inside) re-decides on every trip.  A local that its exit/branch tests read must therefore be sampled inside the loop:
+# a sample taken once before the loop never changes, so the loop either never waits or never ends.
+_POS_STALE = """
+async def f(self):
+    n = self.handler.count()
+    while True:
+        if self.space <= n:
+            await self.changed()
+            continue
+        return True
+"""
+
+
+def _stale_samples(fn_node):
+    out = []
+    params = {a.arg for a in fn_node.args.args + fn_node.args.kwonlyargs + fn_node.args.posonlyargs}
+    for lp in ast.walk(fn_node):
+        if not isinstance(lp, ast.While):
+            continue
+        if not any(isinstance(x, ast.Await) for b in lp.body for x in ast.walk(b)):
+            continue
+        inside = {t.id for b in lp.body for x in ast.walk(b) for t in ast.walk(x)
+                  if isinstance(t, ast.Name) and isinstance(t.ctx, (ast.Store, ast.Del))}
+        tests = [x.test for b in lp.body for x in ast.walk(b) if isinstance(x, (ast.If, ast.While, ast.IfExp))] + [lp.test]
+        read = {}
+        for t in tests:
+            for x in ast.walk(t):
+                if isinstance(x, ast.Name) and isinstance(x.ctx, ast.Load):
+                    read.setdefault(x.id, t)
+        for nm, t in sorted(read.items()):
+            if nm in inside or nm in params:
+                continue
+            # sampled before the loop from live state (a call or an attribute read), not a constant or a parameter
+            pre = [s for s in ast.walk(fn_node) if isinstance(s, ast.Assign) and s.lineno < lp.lineno
+                   and any(isinstance(tt, ast.Name) and tt.id == nm for tt in s.targets)]
+            if pre and all(any(isinstance(y, ast.Call) for y in ast.walk(s.value)) and "self" in {z.id for z in ast.walk(s.value) if isinstance(z, ast.Name)}
+                           for s in pre):
+                out.append((lp, nm, t, pre[-1]))
+    return out
+
+
+_STALE_CONFIRMED = {
+    # the longest fade the hardware can run is a constant of the platform driver, not state that changes while the fade runs
+    "mpf/platforms/interfaces/light_platform_interface.py::LightPlatformDirectFade._fade": "max_fade_ms is a platform constant",
+}
+
+
+def waiting_loops_resample(chk):
+    pos = ast.parse(_POS_STALE).body[0]
+    if len(_stale_samples(pos)) != 1:
+        chk.pending_errors.append("STALE-0 detector does not match its positive example")
+    n = 0
+    for ident in sorted(_anchor_idents(chk)):
+        rel, qual = ident.split("::", 1)
+        f = chk.repo.try_func(rel, qual)
+        if f is None or not isinstance(f.node, ast.AsyncFunctionDef) or ident in _STALE_CONFIRMED:
+            continue
+        n += 1
+        for lp, nm, t, pre in _stale_samples(f.node):
+            chk.ob("STALE-0", "a waiting loop samples the live state it decides on inside the loop, on every trip", False, f.where(pre),
+                   detail="%s is read from live state once before the loop at line %d and tested in the loop (%s): after the wait the test sees the old value"
+                   % (nm, pre.lineno, ast.unparse(t)[:80]), construct=ident, text="stale sample %s in waiting loop" % nm)
+    chk.ob("STALE-0", "async functions examined for stale samples in waiting loops (%d)" % n, True, "mpf:1", nontrivial=False)
